@@ -56,6 +56,8 @@ pub enum Step {
     AppendUnconfirmedPair,
     /// acknowledge everything received so far
     Ack,
+    /// append one event on (p0, b) - the second stream of a multi-stream subscription - and confirm it
+    AppendConfirmedB,
     /// append + confirm one event on the second partition
     AppendConfirmedOther,
     /// confirm every unconfirmed transaction, oldest first
@@ -73,6 +75,11 @@ pub struct Case {
     pub from: Option<u64>,
     pub window: u64,
     pub steps: Vec<Step>,
+    /// the events that exist before the subscription were confirmed without being broadcast (the way a replica
+    /// learns of a confirmation, or what a restart leaves behind): the first broadcast after the subscription
+    /// starts replays them
+    #[serde(default)]
+    pub pre_unbroadcast: bool,
 }
 
 struct Tx {
@@ -225,7 +232,12 @@ async fn run_one(pc: &mut Proc, case: &Case, out: &mut WorkerOut) {
             env.txs[i].confirmed = true;
         }
         let versions: SmallVec<[u64; 4]> = (1..=case.pre as u64).collect();
-        if let Err(e) = env.conf.ask(UpdateConfirmationWithBroadcast { partition_id: p0, versions, confirmation_count: Q, partition_sequences: (0, case.pre as u64 - 1) }).await {
+        let r = if case.pre_unbroadcast {
+            env.conf.ask(UpdateConfirmation { partition_id: p0, versions, confirmation_count: Q }).await.map(|_| ()).map_err(|e| e.to_string())
+        } else {
+            env.conf.ask(UpdateConfirmationWithBroadcast { partition_id: p0, versions, confirmation_count: Q, partition_sequences: (0, case.pre as u64 - 1) }).await.map(|_| ()).map_err(|e| e.to_string())
+        };
+        if let Err(e) = r {
             vcommon::machinery_fail(&format!("C09 initial confirmation: {e}"));
         }
     }
@@ -339,6 +351,15 @@ async fn run_one(pc: &mut Proc, case: &Case, out: &mut WorkerOut) {
                 if let Some(last) = got.last() {
                     acked = Some(last.cursor);
                     let _ = ack_tx.send(acked);
+                }
+            }
+            Step::AppendConfirmedB => {
+                let i = env.append(p0, &['b']).await;
+                while let Some(j) = env.oldest_unconfirmed() {
+                    env.confirm(j, false).await;
+                    if j == i {
+                        break;
+                    }
                 }
             }
             Step::AppendConfirmedOther => {
@@ -558,7 +579,29 @@ pub fn cases(thorough: bool) -> Vec<Case> {
             }
             for (from, window) in combos {
                 for steps in sequences(&menu, len) {
-                    v.push(Case { kind, pre, tail_unconfirmed, from, window, steps });
+                    v.push(Case { kind, pre, tail_unconfirmed, from, window, steps, pre_unbroadcast: false });
+                }
+            }
+        }
+    }
+    // history that was confirmed but never broadcast (replica-way confirmation / restart): the first broadcast after
+    // subscribing replays it; a subscription that starts at the latest position (or behind part of it) must drop it,
+    // also after it has delivered something for another partition or stream
+    for kind in [Kind::Partition, Kind::Stream, Kind::Partitions, Kind::AllPartitions, Kind::Streams] {
+        let other = match kind {
+            Kind::Partitions | Kind::AllPartitions => Some(Step::AppendConfirmedOther),
+            Kind::Streams => Some(Step::AppendConfirmedB),
+            _ => None,
+        };
+        let mut menu = vec![Step::AppendConfirmed, Step::Ack, Step::Release];
+        menu.extend(other);
+        for from in [None, Some(1u64)] {
+            for window in if thorough { vec![1u64, 1000] } else { vec![1000u64] } {
+                for steps in sequences(&menu, if thorough { 4 } else { 3 }) {
+                    if steps.is_empty() {
+                        continue;
+                    }
+                    v.push(Case { kind, pre: 3, tail_unconfirmed: 0, from, window, steps, pre_unbroadcast: true });
                 }
             }
         }
